@@ -398,6 +398,156 @@ def run(ctx):
                     add("JDetachCompact %s %s" % (c_hex(tok.encode()), J.c_res(d, lambda x: c_hex(x.encode()))),
                         {"fn": "detach_compact", "what": "detach-correlated", "force": True, "token": tok})
 
+        # ---- key configurations: key_ops / use / alg members on both sides
+        from joserfc.jwk import JWKRegistry, OctKey
+        from joserfc.errors import UnsupportedKeyOperationError
+
+        def cfg_key(k, private, params):
+            if k.key_type == "oct":
+                return OctKey.import_key(k.raw_value, dict(params, kid=k.kid))
+            return JWKRegistry.import_key(dict(k.as_dict(private=private), **params))
+
+        for alg in J.ALL_ALGS:
+            kn = J.ALG_KEYS[alg][0]
+            k = K[kn]
+            vk = cfg_key(k, False, {"key_ops": ["verify"], "use": "sig", "alg": alg})
+            for sname, sparams in (("sign-only", {"key_ops": ["sign"], "use": "sig", "alg": alg}),
+                                   ("sign+verify", {"key_ops": ["sign", "verify"], "use": "sig"}),
+                                   ("unrestricted", {"alg": alg})):
+                sk = cfg_key(k, True, sparams)
+                for ser in ("compact", "flat", "gen2", "compact97", "flat97"):
+                    if quick and rng.random() < 0.4 and not (alg.startswith("HS") and sname == "sign-only"):
+                        continue
+                    pl = rng.choice([b"hello", b"a.b", "h\u00e9".encode(), b"urlsafe_1"])
+                    base = {"alg": alg}
+                    if ser.endswith("97"):
+                        base.update({"b64": False, "crit": ["b64"]})
+                    rp = {"fn": "key-config", "alg": alg, "key": kn, "ser": ser, "signer": sname, "payload_hex": pl.hex()}
+                    ctx.note_case(("key-config", alg, sname, ser, pl))
+                    note("key-config:%s:%s" % (sname, ser))
+                    rec.take()
+                    if ser == "compact":
+                        r = call(jws.serialize_compact, dict(base), pl, sk, [alg])
+                        rows, _ = rec.take()
+                        add("JSerCompact %s %s %s %s %s %s" % (J.c_table(rows), J.c_dict(base), c_hex(pl), J.c_keysrc(sk), J.c_algs([alg]),
+                                                             J.c_res(r, lambda t: c_hex(t.encode()))), {"fn": "serialize_compact", "what": "key-config:" + sname, **rp})
+                    elif ser == "compact97":
+                        r = call(r97.serialize_compact, dict(base), pl, sk, [alg])
+                        rows, _ = rec.take()
+                        add("JSerCompact97 %s %s %s %s %s %s %s" % (J.c_table(rows), c_bool(lenient), J.c_dict(base), c_hex(pl), J.c_keysrc(sk), J.c_algs([alg]),
+                                                                   J.c_res(r, lambda t: c_hex(t.encode()))), {"fn": "serialize_compact97", "what": "key-config:" + sname, **rp})
+                    else:
+                        m_ = {"protected": dict(base)}
+                        ms = [copy.deepcopy(m_), {"protected": dict(base, cty="m1")}] if ser == "gen2" else copy.deepcopy(m_)
+                        r = call(r97.serialize_json if ser == "flat97" else jws.serialize_json, ms, pl, sk, [alg])
+                        rows, _ = rec.take()
+                    if r[0] != "ok":
+                        bad({"kind": "key-config-sign", "ser": ser}, "signing with a key whose key_ops is %r failed: %r" % (sparams.get("key_ops"), r[1]), rp)
+                        continue
+                    rec.take()
+                    if ser == "compact":
+                        rv = call(jws.deserialize_compact, r[1], vk, [alg])
+                        rows, _ = rec.take()
+                        add("JDesCompact %s %s %s %s %s" % (J.c_table(rows), c_hex(r[1].encode()), J.c_keysrc(vk), J.c_algs([alg]), J.c_compact_result(rv)),
+                            {"fn": "deserialize_compact", "what": "key-config:verify-only", "force": True, **rp})
+                    elif ser == "compact97":
+                        parg = pl if r[1].split(".")[1] == "" else None
+                        rv = call(r97.deserialize_compact, r[1], vk, parg, [alg])
+                        rows, _ = rec.take()
+                        add("JDesCompact97 %s %s %s %s %s %s" % (J.c_table(rows), c_hex(r[1].encode()), J.c_keysrc(vk), c_opt(parg, c_hex), J.c_algs([alg]),
+                                                                J.c_compact_result(rv)), {"fn": "deserialize_compact97", "what": "key-config:verify-only", "force": True, **rp})
+                    elif ser == "flat97":
+                        rv = call(r97.deserialize_json, copy.deepcopy(r[1]), vk, [alg])
+                        rows, _ = rec.take()
+                        add("JDesJson97 %s %s %s %s %s %s" % (J.c_table(rows), c_bool(fixed), J.c_jval(r[1]), J.c_keysrc(vk), J.c_algs([alg]), J.c_json_result(rv)),
+                            {"fn": "deserialize_json97", "what": "key-config:verify-only", "force": True, **rp})
+                    else:
+                        rv = call(jws.deserialize_json, copy.deepcopy(r[1]), vk, [alg])
+                        rows, _ = rec.take()
+                        add("JDesJson %s %s %s %s %s" % (J.c_table(rows), J.c_jval(r[1]), J.c_keysrc(vk), J.c_algs([alg]), J.c_json_result(rv)),
+                            {"fn": "deserialize_json", "what": "key-config:verify-only", "force": True, **rp})
+                    if rv[0] != "ok" or rv[1].payload != pl:
+                        bad({"kind": "key-config-roundtrip", "ser": ser}, "a JWS (%s, %s) signed with key_ops %r does not verify with the same key material restricted to key_ops ['verify']: %r" % (
+                            alg, ser, sparams.get("key_ops"), rv[1]), rp)
+            # the operations are not interchangeable: verify-only keys do not sign, sign-only keys do not verify
+            rec.take()
+            r = call(jws.serialize_compact, {"alg": alg}, b"x", vk if k.key_type == "oct" else cfg_key(k, True, {"key_ops": ["verify"]}), [alg])
+            rows, _ = rec.take()
+            if r[0] == "ok" or not isinstance(r[1], UnsupportedKeyOperationError):
+                bad({"kind": "key-config-verify-only-signs"}, "a key restricted to key_ops ['verify'] signed: %r" % (r[1],), {"fn": "key-config", "alg": alg})
+            tok = jws.serialize_compact({"alg": alg}, b"x", k, [alg])
+            rec.take()
+            so = cfg_key(k, True, {"key_ops": ["sign"]})
+            r = call(jws.deserialize_compact, tok, so, [alg])
+            rows, _ = rec.take()
+            add("JDesCompact %s %s %s %s %s" % (J.c_table(rows), c_hex(tok.encode()), J.c_keysrc(so), J.c_algs([alg]), J.c_compact_result(r)),
+                {"fn": "deserialize_compact", "what": "key-config:sign-only-verifies", "force": True, "alg": alg})
+            if r[0] == "ok" or not isinstance(r[1], UnsupportedKeyOperationError):
+                bad({"kind": "key-config-sign-only-verifies"}, "a key restricted to key_ops ['sign'] verified: %r" % (r[1],), {"fn": "key-config", "alg": alg})
+
+        # ---- callables that perform nested library calls, interleaved object histories:
+        # every token must still verify to its own payload
+        pool = []
+        for alg, kn in (("HS256", "oct32"), ("ES256", "p256"), ("EdDSA", "ed25519"), ("RS256", "rsa"), ("HS512", "oct64")):
+            for pl in (b"payload-of-" + alg.encode(), b"", b"a.b.c"):
+                tok = jws.serialize_compact({"alg": alg, "kid": kn}, pl, K[kn], [alg])
+                val = jws.serialize_json({"protected": {"alg": alg}, "header": {"kid": kn}}, pl, K[kn], [alg])
+                pool.append((tok, val, alg, kn, J.pubkey_of(K[kn]), pl))
+        rec.take()
+        for ia, A in enumerate(pool):
+            for ib, B in enumerate(pool):
+                if ia == ib or (quick and (ia * 7 + ib) % 4):
+                    continue
+                C = pool[(ia + ib) % len(pool)]
+                inner = {}
+
+                def keyf(obj, A=A, B=B, C=C, inner=inner):
+                    inner["b"] = call(jws.deserialize_compact, B[0], B[4], [B[2]])
+                    inner["c"] = call(jws.extract_compact, C[0].encode())
+                    inner["s"] = call(jws.serialize_compact, {"alg": "HS256"}, b"inner", K["oct32"], ["HS256"])
+                    inner["j"] = call(jws.deserialize_json, copy.deepcopy(B[1]), B[4], [B[2]])
+                    return A[4]
+                ctx.note_case(("nested", ia, ib))
+                note("nested-callable")
+                rp = {"fn": "nested-callable", "tokA": A[0], "tokB": B[0], "algA": A[2], "algB": B[2]}
+                rec.take()
+                r = call(jws.deserialize_compact, A[0], keyf, [A[2]])
+                rows, _ = rec.take()
+                add("JDesCompact %s %s %s %s %s" % (J.c_table(rows), c_hex(A[0].encode()), J.c_keysrc(A[4]), J.c_algs([A[2]]), J.c_compact_result(r)),
+                    {"fn": "deserialize_compact", "what": "nested-callable", "force": (ia + ib) % 3 == 0, **rp})
+                if r[0] != "ok" or r[1].payload != A[5] or r[1].protected != {"alg": A[2], "kid": A[3]}:
+                    bad({"kind": "nested-callable", "ser": "compact"}, "deserialize_compact(A) with a key callable that parses other tokens: %r (expected payload %r)" % (
+                        r[1] if r[0] != "ok" else r[1].payload, A[5]), rp)
+                if inner.get("b", ("err", None))[0] != "ok" or inner["b"][1].payload != B[5] or inner["j"][0] != "ok" or inner["j"][1].payload != B[5]:
+                    bad({"kind": "nested-callable-inner"}, "the nested verification of B inside the callable failed: %r" % (inner.get("b"),), rp)
+                rj = call(jws.deserialize_json, copy.deepcopy(A[1]), keyf, [A[2]])
+                rec.take()
+                if rj[0] != "ok" or rj[1].payload != A[5]:
+                    bad({"kind": "nested-callable", "ser": "flat"}, "deserialize_json(A) with a key callable that parses other tokens: %r" % (rj[1],), rp)
+
+                # signing with a callable that verifies / signs other tokens
+                def skeyf(obj, A=A, B=B):
+                    call(jws.deserialize_compact, B[0], B[4], [B[2]])
+                    call(jws.serialize_compact, {"alg": B[2]}, b"other", K[B[3]], [B[2]])
+                    return K[A[3]]
+                t2 = call(jws.serialize_compact, {"alg": A[2]}, A[5], skeyf, [A[2]])
+                rec.take()
+                r2 = call(jws.deserialize_compact, t2[1], A[4], [A[2]]) if t2[0] == "ok" else t2
+                rec.take()
+                if r2[0] != "ok" or r2[1].payload != A[5]:
+                    bad({"kind": "nested-callable-sign"}, "serialize_compact with a key callable that handles other tokens, then verify: %r" % (r2[1],), rp)
+                # interleaved histories: extract A, extract B, validate A, validate B
+                ea = call(jws.extract_compact, A[0].encode())
+                eb = call(jws.extract_compact, B[0].encode())
+                va = call(jws.validate_compact, ea[1], A[4], [A[2]]) if ea[0] == "ok" else ea
+                vb = call(jws.validate_compact, eb[1], B[4], [B[2]]) if eb[0] == "ok" else eb
+                rec.take()
+                note("interleaved-history")
+                okseg = ea[0] == "ok" and [ea[1].segments.get(x) for x in ("header", "payload", "signature")] == A[0].encode().split(b".")
+                if va != ("ok", True) or vb != ("ok", True) or ea[1].payload != A[5] or eb[1].payload != B[5] or not okseg:
+                    bad({"kind": "interleaved-history"}, "extract A, extract B, validate A, validate B: %r / %r; payloads %r / %r; A's segments intact: %s" % (
+                        va[1], vb[1], getattr(ea[1], "payload", None), getattr(eb[1], "payload", None), okseg), rp)
+
         # ---- forced ECDSA boundary values of (r, s) through ECAlgModel.sign / verify
         for alg, crv, bits in (("ES256", "P-256", 256), ("ES384", "P-384", 384), ("ES512", "P-521", 521), ("ES256K", "secp256k1", 256)):
             inst = jws.JWSRegistry.algorithms[alg]
